@@ -694,11 +694,19 @@ func ruleNoFabricatedOperands(c *core.Ctx, rule string) {
 				if _, isSlice := p.Type().Underlying().(*types.Slice); !isSlice {
 					continue
 				}
-				made, parsed := false, false
+				made, parsed, trimmed := false, false, false
 				for _, e := range p.Edges {
 					switch x := core.Canon(e).(type) {
 					case *ssa.MakeSlice:
 						made = true
+					case *ssa.Slice:
+						// a re-slice of another edge of the same phi: the parsed list with
+						// members cut off on one path
+						for _, e2 := range p.Edges {
+							if e2 != e && core.Canon(x.X) == core.Canon(e2) {
+								trimmed = true
+							}
+						}
 					case *ssa.Call:
 						if bi, isB := x.Call.Value.(*ssa.Builtin); isB && bi.Name() == "append" {
 							continue // the list being filled in a loop: make(.., 0, n) then append
@@ -707,6 +715,11 @@ func ruleNoFabricatedOperands(c *core.Ctx, rule string) {
 					case *ssa.Extract, *ssa.TypeAssert, *ssa.Parameter:
 						parsed = true
 					}
+				}
+				if trimmed && parsed {
+					n++
+					c.Fail(rule, fmt.Sprintf("trimmed-operand@%s#%d", core.FuncKey(fn), n), p.Pos(), "a list the parser produced is cut down on one path before the type is built from it: the members dropped are in the input but not in the printed form, so a signature of the grammar (a tuple whose only member is void, \"(v)\") does not print back as itself")
+					continue
 				}
 				if made && parsed {
 					n++
